@@ -835,8 +835,39 @@ impl<'a, const COLS: usize, const PIS: usize> Run<'a, COLS, PIS> {
                 p.public_inputs[k] = if p.public_inputs[k] == v { v + F::ONE } else { v };
                 self.judge(&p, m, "wrong_public_input", false, spec, idx, st)
             }
+            // ---- honest trace, but the prover perturbs ONE quotient polynomial (one challenge's identity fails) or one
+            //      auxiliary (lookup) polynomial value before committing ----
+            12 => {
+                let (trace, pis) = {
+                    let h = self.honest(m, multi)?;
+                    (h.trace.clone(), h.pis.clone())
+                };
+                let mut k = Knobs::default();
+                k.lenient_quotient = true;
+                let delta = 1 + spec.val % (P - 1);
+                let class = if !self.stark.def.lookups.is_empty() && spec.ekind % 2 == 0 {
+                    k.aux_perturb = Some((spec.col as usize, spec.row as usize, delta));
+                    "aux_poly_perturbed"
+                } else {
+                    let nc = self.mode.config.num_challenges;
+                    let ch = spec.col as usize % nc;
+                    k.quotient_perturb = Some((ch, spec.row as usize, delta));
+                    if ch == 0 {
+                        "quotient_perturbed_challenge0"
+                    } else {
+                        "quotient_perturbed_later_challenge"
+                    }
+                };
+                match self.prove_trace(&trace, &pis, multi, k) {
+                    Ok(Ok(p)) => self.judge(&p, m, class, false, spec, idx, st),
+                    _ => {
+                        st.label(&format!("{}: prover refused", class));
+                        Ok(())
+                    }
+                }
+            }
             // ---- proof emitted by the real prover for a corrupted trace ----
-            11 | 12 => {
+            11 => {
                 let h = self.honest(m, multi)?;
                 let mut trace = h.trace.clone();
                 let mut pis = h.pis.clone();
@@ -905,8 +936,17 @@ impl<'a, const COLS: usize, const PIS: usize> Run<'a, COLS, PIS> {
             // ---- shape edit of one container of the proof (reported, not asserted) ----
             19 => {
                 let h = self.honest(m, multi)?;
-                let cs = containers(&h.tree);
-                let (path, _, _) = cs[frac32(spec.pos, cs.len())].clone();
+                // fixed-size arrays (extension-field limbs, digest words) cannot change shape: skip them
+                let cs: Vec<Path> = containers(&h.tree)
+                    .into_iter()
+                    .map(|c| c.0)
+                    .filter(|p| {
+                        let all_numbers = get(&h.tree, p).and_then(|v| v.as_array()).map(|a| a.iter().all(|x| x.is_number())).unwrap_or(false);
+                        let c = class_of(p);
+                        !all_numbers || c == "public_inputs" || c.ends_with("evals_proofs[][]")
+                    })
+                    .collect();
+                let path = cs[frac32(spec.pos, cs.len())].clone();
                 let e = ShapeEdit::ALL[spec.ekind as usize % 4];
                 let mut tree = h.tree.clone();
                 if !edit_shape(&mut tree, &path, e) {
@@ -1012,7 +1052,7 @@ pub fn run(ctx: &mut Ctx) {
                 (1-6 queries, 0-4 grinding bits, 1-3 challenges, all three reduction strategies in fixed-degree mode; the ConstantArityBits family \
                 admissible for multi-degree verification otherwise) -> ONE outer circuit (standard recursion config) embedding the STARK verifier, \
                 fed with: honest proofs of every supported length, value edits at a numeric leaf of every component class, wrong public inputs, \
-                proofs the real prover emitted for a corrupted trace, proofs of another length / without the transcript padding, a wrong degree_bits \
+                proofs the real prover emitted for a corrupted trace or with one perturbed quotient / lookup polynomial, proofs of another length / without the transcript padding, a wrong degree_bits \
                 assignment, a proof-of-work witness chosen without grinding, a final-polynomial coefficient ground so that the query indices stay \
                 the same, and (reported but not asserted) shape edits; verdicts of verify_stark_proof and of (assignment + witness generation + \
                 O-sat) must agree; non-trivial = multi-degree case with a proof shorter than the maximum, or a natively rejected proof whose \
@@ -1030,6 +1070,11 @@ pub fn run(ctx: &mut Ctx) {
             .into(),
     );
     ctx.assumptions.push("satisfaction oracle trusts each gate's own eval_unfiltered (judged by C07) and the builder's copy classes".into());
+    ctx.assumptions.push(
+        "shape-changed proofs are compared but not asserted: set_stark_proof_with_pis_target / set_fri_proof_target ignore surplus trailing \
+         elements and zero-pad short ones, so the circuit accepts some proofs the native shape validation rejects (see the UNASSERTED histogram labels)"
+            .into(),
+    );
     ctx.shrink_iters = 6;
     let (cases, proofs) = ctx.tier.pick((70, 40), (500, 300));
     ctx.run_sub("circuit_vs_native", cases, 14, move || case(proofs), prop);
